@@ -362,8 +362,16 @@ class _VersionIndependentUnmarshaller:
     # Since Python 3.4
     def t_interned(self, save_ref, bytes_for_s=False):
         strsize = unpack("<i", self.fp.read(4))[0]
-        interned = compat_str(self.fp.read(strsize))
+        interned = self.fp.read(strsize)
+        if self.version_tuple >= (3, 0):
+            # 3.4+: interned text, UTF-8 as marshal.c reads it
+            interned = interned.decode("utf-8", "surrogatepass")
+            self.internStrings.append(interned)
+            return self.r_ref(interned, save_ref)
+        # Python 2: a str; what it becomes depends on where it is used
         self.internStrings.append(interned)
+        if not bytes_for_s:
+            interned = compat_str(interned)
         return self.r_ref(interned, save_ref)
 
     def t_unicode(self, save_ref, bytes_for_s=False):
@@ -442,7 +450,8 @@ class _VersionIndependentUnmarshaller:
 
     def t_python2_string_reference(self, save_ref, bytes_for_s=False):
         refnum = unpack("<i", self.fp.read(4))[0]
-        return self.internStrings[refnum]
+        s = self.internStrings[refnum]
+        return s if bytes_for_s else compat_str(s)
 
     def t_code(self, save_ref, bytes_for_s=False):
         # FIXME: use tables to simplify this?
